@@ -23,7 +23,7 @@ TRUSTED = ["elementwise tensor arithmetic acts independently per sample (so one 
 
 
 def configs(tier):
-    return [{"part": "nodes"}, {"part": "operators"}, {"part": "rejections"}]
+    return [{"part": "nodes"}, {"part": "operators"}, {"part": "rejections"}, {"part": "frames"}]
 
 
 def canaries(tier):
@@ -61,7 +61,44 @@ def _world(vc):
     return Leaf, SBSum, SBProd, rew + SBSum._vc_rewritten + SBProd._vc_rewritten
 
 
+def frames(ctx, prefix=""):
+    """Evaluating a composite reads its leaves' values: neither the tensors the leaves returned (which may be views of
+    the sample array) nor the samples are modified (real classes, concrete tensors; every node form)."""
+    import torch
+    from qucumber.observables.observable import ObservableBase, SumObservable, ProdObservable
+
+    class Column(ObservableBase):
+        """a user observable returning a view of the samples"""
+
+        def __init__(self, i):
+            self.i = i
+            self.name = "col%d" % i
+            self.symbol = self.name
+
+        def apply(self, nn_state, samples):
+            return samples[:, self.i]
+    forms = {"x + y": lambda x, y: x + y, "x - y": lambda x, y: x - y, "x + 2": lambda x, y: x + 2, "2 + x": lambda x, y: 2 + x, "x - 0.5": lambda x, y: x - 0.5,
+             "3 - x": lambda x, y: 3 - x, "-x": lambda x, y: -x, "x * 2.5": lambda x, y: x * 2.5, "2.5 * x": lambda x, y: 2.5 * x,
+             "(x + y) - (2 * x + 1)": lambda x, y: (x + y) - (2 * x + 1)}
+    for tag, mk in forms.items():
+        samples = torch.tensor([[0., 1., 1.], [1., 0., 1.], [1., 1., 0.], [0., 0., 1.]], dtype=torch.double)
+        keep = samples.clone()
+        x, y = Column(0), Column(1)
+        node = mk(x, y)
+        out = node.apply(None, samples)
+        v = {"x": keep[:, 0], "y": keep[:, 1]}
+        want = eval(tag, {}, v)
+        ctx.holds(prefix + "frame/%s: value is the arithmetic on the leaves" % tag, torch.allclose(torch.as_tensor(out, dtype=torch.double), want))
+        ctx.holds(prefix + "frame/%s: samples and the leaves' returned views are not modified" % tag, torch.equal(samples, keep))
+        st1 = node.statistics_from_samples(None, samples)
+        ctx.holds(prefix + "frame/%s: statistics_from_samples leaves the samples unchanged and describes the combined value" % tag,
+                  torch.equal(samples, keep) and abs(st1["mean"] - float(want.mean())) < 1e-12)
+
+
 def run_config(ctx, cfg):
+    if cfg["part"] == "frames":
+        ctx.under_contract("SumObservable.apply", "ProdObservable.apply", "ObservableBase.statistics_from_samples")
+        return frames(ctx)
     canary = getattr(ctx, "canary", None)
     vc = VC(ctx)
     Leaf, SBSum, SBProd, rew = _world(vc)
